@@ -1172,7 +1172,17 @@ def lstsq(a, b, cond=None, lapack_driver=None, **k):
     if not sz_eq(a.shape[0], b.shape[0]):
         raise value_error(f'lstsq: incompatible dimensions {a.shape} and {b.shape}')
     x = Arr([a.shape[1]] + list(b.shape[1:]), [dual_legs(a.legs[1])] + list(b.legs[1:]), A.join_dtype(a.dt, b.dt), None, {'lstsq': (a, b)}, 'lstsq')
-    A.CTX.event('lstsq', matrix=a, rhs=b, result=x, cond=cond)
+    gram = False
+    fac = a.tags.get('factors')
+    if fac and len(fac) == 2 and all(isinstance(f_, Arr) and f_.ndim == 2 for f_ in fac):
+        # M M^T (or M^T M): one factor is the transposed view of the other
+        def root_(v):
+            hops = 0
+            while isinstance(v, Arr) and v.origin in ('transpose', 'conj', 'copy') and v.parents and hops < 4:
+                v, hops = v.parents[0], hops + 1
+            return v
+        gram = root_(fac[0]) is root_(fac[1]) and (fac[0].origin == 'transpose') != (fac[1].origin == 'transpose')
+    A.CTX.event('lstsq', matrix=a, rhs=b, result=x, cond=cond, gram=gram)
     return (x, scalar('real', 'resid'), scalar('int', 'rank'), Arr([sz_min(A.CTX.atoms, a.shape[0], a.shape[1])], None, 'real', None, {}, 'sv'))
 
 
